@@ -242,9 +242,13 @@ def c11(ctx):
     ctx.floor("R8", na, 1, "axis arguments in the histogram module")
     RL.rule_r9(ctx, prog, roots)
     RH.rule_lookup_delegation(ctx, prog)
+    # the lookup every count goes through: a miss must be a quiet `None` for every edge set, incl. an empty axis (C13's R20)
+    RH.rule_indices_of_tree(ctx, prog)
+    RH.rule_bins_len(ctx, prog)
     return dict(
         level="proof",
-        explanation="Accounting structure of the histogram, relative to C13 (bin lookup) and ndarray's IxDyn indexing: (R11) Histogram.counts "
+        explanation="Accounting structure of the histogram on top of the one lookup primitive (R20: decision tree of Edges::indices_of = "
+                    "left-closed/right-open table for every edge-set size incl. 0 and 1, so a miss is a quiet None) and ndarray's IxDyn indexing: (R11) Histogram.counts "
                     "is written/mutably borrowed only by new and add_observation, grid never after new, fields private; (R16) add_observation "
                     "increments counts[idx] by exactly 1 exactly once on the found branch with idx = self.grid.index_of(observation), performs "
                     "no write or call on the reject path and returns BinNotFound; new allocates zeros(grid.shape()) of the stored grid; the "
